@@ -43,9 +43,10 @@ var p3Sites = []p3Site{
 type p3State struct {
 	reg      bool
 	selfSent bool
+	regJust  bool // the registration call has just been made: a test of its error result decides whether it took place
 }
 
-func (s *p3State) Key() string  { return fmt.Sprintf("%v|%v", s.reg, s.selfSent) }
+func (s *p3State) Key() string  { return fmt.Sprintf("%v|%v|%v", s.reg, s.selfSent, s.regJust) }
 func (s *p3State) Copy() PState { n := *s; return &n }
 
 func recvFieldName(info *types.Info, call *ast.CallExpr) string {
@@ -82,6 +83,7 @@ func ruleP3(r *Run) {
 		var chanObj types.Object
 		var regSeen bool
 		var regRecv string // the table the entry was registered in (receiver of the register call)
+		var regErr types.Object
 		var badExit ast.Node
 		w := &Walk{Info: info}
 		// bool locals that hold the result of a conditional withdrawal
@@ -115,7 +117,11 @@ func ruleP3(r *Run) {
 							chanObj = o
 							regSeen = true
 							regRecv = recvFieldName(info, x)
-							return []PState{&p3State{reg: true, selfSent: st.selfSent}}
+							// a registration that can be refused (it returns an error): find the variable that receives it
+							if as, ok := parentMap(fd.Body)[x].(*ast.AssignStmt); ok && len(as.Lhs) == 1 && isErrorType(info.TypeOf(as.Lhs[0])) {
+								regErr = identObj(info, as.Lhs[0])
+							}
+							return []PState{&p3State{reg: true, selfSent: st.selfSent, regJust: true}}
 						}
 					}
 				}
@@ -140,6 +146,15 @@ func ruleP3(r *Run) {
 		// removes the entry only if it is still this function's own; on the true edge it is gone
 		w.Branch = func(w *Walk, ps PState, cond ast.Expr, val bool) (PState, bool) {
 			st := ps.(*p3State)
+			// `if err = table.store(..); err != nil`: on the error edge the entry was refused, nothing is registered
+			if st.regJust && regErr != nil {
+				if nonNil, ok := testsErrSimple(info, cond, regErr); ok {
+					if nonNil == val {
+						return &p3State{reg: false, selfSent: st.selfSent}, true
+					}
+					return &p3State{reg: st.reg, selfSent: st.selfSent}, true
+				}
+			}
 			call, ok := ast.Unparen(cond).(*ast.CallExpr)
 			if !ok {
 				// withdrawn := table.RemoveCb(..); if !withdrawn { .. }
@@ -1327,3 +1342,4 @@ func ruleL7(r *Run) {
 
 	r.Ok("functions with slice parameters scanned", 0, fmt.Sprintf("%d functions, no append into parameter storage", nChecked))
 }
+
